@@ -100,6 +100,8 @@ pub fn run_c17(ctx: &mut Ctx, from: u64, to: u64) {
         ctx.flag("files_with_tag_slots", spec.n_tags > 0);
         ctx.flag("files_with_word_longer_than_bucket", spec.words.iter().any(|w| w.0.len() > usize::from(spec.dict_n)));
         ctx.flag("files_with_windows_that_differ", spec.char_w != spec.type_w);
+        ctx.flag("files_with_window_of_8_or_more", spec.char_w >= 8 || spec.type_w >= 8);
+        ctx.flag("files_with_dictionary_weights_summing_beyond_16_bit", spec.dict_vec.iter().any(|&x| x.unsigned_abs() >= 15000) && spec.n_dicts >= 2);
         ctx.flag("files_with_extra_stored_weights", spec.extra_weights > 0);
         ctx.flag("files_with_trailing_bytes", !spec.trailing.is_empty());
         ctx.count("char_ngrams_in_files", spec.char_ngrams.len() as u64);
